@@ -129,6 +129,30 @@ IntervalLaws ==
      /\ (x[2] = y[1] /\ x[1] < x[2] /\ y[1] < y[2] => D = {0})              \* touching from outside
      /\ (\E d \in D : d > 0) => (x[2] < y[1] \/ y[2] < x[1])
 
+(* round 3: element / row writes and the four ordering operators (pairs; vectors = rows of A and B) *)
+AccessLaws ==
+  LET v == A[1]
+      w == B[1]
+  IN /\ \A i \in 1..2 : /\ SetAt(v, i, 7)[i] = 7
+                         /\ \A j \in 1..2 : j # i => SetAt(v, i, 7)[j] = v[j]
+                         /\ SetAt(v, i, v[i]) = v
+     /\ \A i, j \in 1..2 :
+          /\ At(MSetAt(A, i, j, 7), i, j) = 7
+          /\ \A k, l \in 1..2 : <<k, l>> # <<i, j>> => At(MSetAt(A, i, j, 7), k, l) = At(A, k, l)
+     /\ \A i \in 1..2 : Row(SetRow(A, i, w), i) = w /\ Row(SetRow(A, i, w), 3 - i) = Row(A, 3 - i)
+     /\ SetRow(SetRow(A, 1, B[1]), 2, B[2]) = B
+     /\ MSetAt(A, 1, 2, B[1][2]) = SetRow(A, 1, SetAt(A[1], 2, B[1][2]))
+OrderLaws ==
+  \A v \in {A[1], A[2], B[1]}, w \in {A[2], B[1], B[2]} :
+    /\ Le(v, v) /\ Ge(v, v) /\ ~Less(v, v) /\ ~Gt(v, v)
+    /\ (Le(v, w) <=> (Less(v, w) \/ v = w)) /\ (Ge(v, w) <=> (Gt(v, w) \/ v = w))
+    /\ (Gt(v, w) <=> Less(w, v)) /\ (Le(v, w) <=> Ge(w, v))
+    /\ (Less(v, w) \/ Gt(v, w) \/ v = w)
+    /\ (Le(v, w) /\ Le(w, v) => v = w)
+    /\ \A u \in {B[2], A[1]} : Less(v, w) /\ Less(w, u) => Less(v, u)
+    \* lexicographic: the first component decides, the second one only on a tie
+    /\ (v[1] < w[1] => Less(v, w)) /\ (v[1] = w[1] => (Less(v, w) <=> v[2] < w[2]))
+
 ----------------------------------------------------------------------------
 (* defective definitions for the vacuity guards *)
 DetRowMod3(M) ==       \* DESIGN 7: sign by Row % 3 (0-based row)
@@ -148,5 +172,7 @@ CModFloor(a, b) == a - b * (IF b > 0 THEN a \div b ELSE (-a) \div (-b))      \* 
 InfinityNormColumns(M) == MaxOfSet({Sum(LAMBDA i : Abs(M[i][j]), Rows(M)) : j \in 1..Cols(M)})   \* the 1-norm
 UnitOneBased(n, axis) == [i \in 1..n |-> IF i = axis THEN 1 ELSE 0]
 IvOverlapRuleMinMax(x, y) == (IF x[1] < y[1] THEN x[1] ELSE y[1]) - (IF x[2] < y[2] THEN y[2] ELSE x[2])
+LeAsLess(v, w) == Less(v, w)                                   \* <= that is false on equal operands
+SetAtShifted(v, i, x) == [v EXCEPT ![IF i = Len(v) THEN 1 ELSE i + 1] = x]   \* the write lands one component further
 BitStringsReversed(n) == [k \in 1..Pow2(n) |-> [i \in 1..n |-> ((k - 1) \div Pow2(n - i)) % 2]]
 =============================================================================
